@@ -123,7 +123,7 @@ CLAIMS['C08'] = dict(
           'The trim walks are shown to stay inside [0,size] (widening with verified cursor bounds) and to call substr inside the string. '
           'The 12 before_/after_ overloads are interpreted with the search result as a symbol: on a match the slice is left(i) / '
           'substr(i + length of the separator searched for), without a match the whole / empty string as the property tabulates; every read '
-          'of the string\'s storage on every explored path of these members lies inside it (a violation comes with a witness). A trim that tests units against a folded form of the character set (bit set, table) instead of find_cs: the place it reads, as a function of the unit (bit provenance of offset and shift), must differ for any two unit values (witness: two units selecting the same place). Any further trim overload reaches its charset core or, if it walks with a predicate of the unit alone, accepts exactly the bytes of ST_WHITESPACE (finite case analysis).'),
+          'of the string\'s storage on every explored path of these members lies inside it (a violation comes with a witness). A trim that tests units against a folded form of the character set (bit set, table) instead of find_cs: the place it reads, as a function of the unit (bit provenance of offset and shift), must differ for any two unit values (witness: two units selecting the same place). Any further trim overload reaches its charset core or, if it walks with a predicate of the unit alone, accepts exactly the bytes of ST_WHITESPACE (finite case analysis). A walk whose membership test is strchr(set, unit) must not move over a unit that may be NUL (strchr also finds the terminator of the set).'),
     note=('relative to: clang-14 lowering, STIR, C05 (storage of size()+1 units terminated at size()), C07 for the meaning of the index '
           'returned by find/find_last; which bytes a trim removes (membership in the set) is delegated to find_cs'),
     technique='static analysis: abstract interpretation with free scalars at full range (linear terms + intervals), oracle clamp formula, witness search')
@@ -151,7 +151,7 @@ CLAIMS['C12'] = dict(
           'way can overflow (witness: the most negative value) and no abs() family call exists; the digit loop of every uint_formatter<U> '
           'is summarised per iteration (value := value / radix, one unit stored backwards, from index digits of a digits+1 buffer) which '
           'with the halving lemma bounds it by the width of U; the character stored per digit value and case flag is checked by finite case analysis, also on paths that bypass the loop (witness value / radix / case); the 7 parsing members are interpreted against the ok / full_match table '
-          'with the strto* end position symbolic (embedded NULs included).'),
+          'with the strto* end position symbolic (embedded NULs included). R12.5: the narrowing parsing members return their wide sibling\'s result converted to the narrow width on every path (the wide member a free symbol, errno an ordinary object; witness otherwise).'),
     note=('relative to: clang-14 lowering, STIR, the strto* model and the lemma that division by a radix >= 2 reaches 0 within bit-width '
           'steps; bases 2..36; what strto* returns and that the quotient/remainder sequence spells the canonical digits is libc / arithmetic'),
     technique='static analysis: abstract interpretation with full-range integers (overflow events, magnitude term vs oracle), loop step summary + arithmetic lemma')
@@ -230,7 +230,7 @@ CLAIMS['C11'] = dict(
           'UTF-8 encoding of the code point bit for bit (U+FFFD outside 0..10FFFF, negatives included); every flag character of a field text '
           'stores exactly its documented fields of the public ST::format_spec (alignment, pad, numeric_pad, class_prefix, always_signed, digit / '
           'float class, width / precision / index from the decimal number that follows). Not decided here: the digits (C12), what the '
-          'parser accepts and the literal / brace copying (C10 covers its safety, not its value), the character class.'),
+          'parser accepts and the literal / brace copying (C10 covers its safety, not its value), the character class. R11.5 also covers the fronts: for every integer overload the value handed to the character renderer is the argument when it lies in 0..10FFFF and lies outside that range when the argument does, over the whole range of the argument type (found F17).'),
     note=('relative to: clang-14 lowering, STIR, C10, C12, C16; texts < 2^28 units (library contract); level "other": necessary clauses over '
           'the whole configuration space, not the full output equation'),
     technique='static analysis: abstract interpretation of the layout routines with all format_spec fields symbolic; emitted unit sequence vs the rendering table, witness search')
@@ -246,7 +246,7 @@ CLAIMS['C17'] = dict(
           'instantiation builds one writer over its format string and runs apply_format, the string forms ending in to_string(true, mode) '
           'resp. to_string(false, assume_valid); operator<< inserts basic_string(b.data(), b.size()) of to_buffer(b) and operator>> sets '
           'the string from the extracted token (c_str(), size()), a token object that is empty when the extraction starts on every path (a basic_string that outlives the call and is not cleared keeps the previous token when the stream yields none); the string writer, after constructor + append_char / append of a byte >= 0x80, answers to_string(utf8, validation) only through string_stream::to_string with those arguments; an append_char that writes a run in one piece from a std::basic_string block hands over units set to ch in this call. Not decided: that libc / iostream deliver what they are handed, what the '
-          'conversions and the driver produce (C01-C03, C10, C11); for a writer that stages bytes in a buffer of its own the call-order clause is decided (no byte of a later call reaches the sink while staged bytes may be pending: witness with one staged byte), that it flushes everything in the end is reported undecided; a writer that transcodes its text in pieces is a finding when a piece can end inside a multi-byte character (witness: a well-formed text with that character across the cut, on a first-iteration path), otherwise undecided.'),
+          'conversions and the driver produce (C01-C03, C10, C11); for a writer that stages bytes in a buffer of its own the call-order clause is decided (no byte of a later call reaches the sink while staged bytes may be pending: witness with one staged byte), that it flushes everything in the end is reported undecided; a writer that transcodes its text in pieces is a finding when a piece can end inside a multi-byte character (witness: a well-formed text with that character across the cut, on a first-iteration path), otherwise undecided. R17.8: the data pointer of append never reaches a function that reads a NUL-terminated string (printf family, fputs, strlen, measuring library functions); in operator>> nothing changes the string after it was set from the token.'),
     note=('relative to: clang-14 lowering, STIR, libc / libstdc++ output primitives trusted, C10 (dispatch only through append / append_char), '
           'C16; writers instantiated in gen/driver.cpp; level "other": necessary hand-over facts plus a stated (not mechanised) induction over the call sequence'),
     technique='static analysis: abstract interpretation of the sink members with symbolic arguments (sink-call events vs the arguments received), call-graph facts for the entry points')
